@@ -193,11 +193,9 @@ func (stack *Stack) TruncateToSize(newsize int) {
 	if newsize < 0 {
 		newsize = 0
 	}
-	if newsize > len(stack.elements) {
-		el := make([]StackElem, newsize)
-		copy(el, stack.elements)
-		stack.elements = el
-		stack.tos = newsize - 1
+	if newsize >= len(stack.elements) {
+		// truncation never grows a stack: padding it with nil
+		// elements would make the next pop panic.
 		return
 	}
 	for i := newsize; i < len(stack.elements); i++ {
